@@ -80,8 +80,9 @@ type ssResult struct {
 	EndClass  string      `json:"end_class,omitempty"`  // c07: how the judge reads the end of the stream
 	NA, NB    int         `json:",omitempty"`           // c07: frames identical to the reference / well-formed but different
 	ServeErr  string      `json:"serve_err,omitempty"`
-	Exit      bool        `json:"exit,omitempty"` // the child must be replaced (a goroutine is stuck)
-	Slow      bool        `json:"slow,omitempty"` // a liveness deadline expired in this case
+	Exit      bool        `json:"exit,omitempty"`  // the child must be replaced (a goroutine is stuck)
+	Slow      bool        `json:"slow,omitempty"`  // a liveness deadline expired in this case
+	Model     *ssMTrace   `json:"model,omitempty"` // c11: the session as actions of the handle-table model (srvsession_model.go)
 	// parent side
 	Crash   bool   `json:"crash,omitempty"`
 	Timeout bool   `json:"timeout,omitempty"`
@@ -368,6 +369,7 @@ func ssRunC11(cfg ssCfg, prog []ssStep, end ssEnd, root string) ssResult {
 		return res
 	}
 	add := func(f ssFinding) { res.Findings = append(res.Findings, f) }
+	mrec := newSSMRec(s)
 	handles := map[int]string{}
 	objHandle := map[int]string{} // rs: object id -> handle
 	closeSent := map[string]bool{}
@@ -409,14 +411,19 @@ func ssRunC11(cfg ssCfg, prog []ssStep, end ssEnd, root string) ssResult {
 		if k == "rs" {
 			nobj = len(s.fs.objStates())
 		}
+		hkind, hlive := s.trk.live[q.Handle]
+		hlive = hlive && q.HasHandle
+		msnap := mrec.snap()
 		s.srv.Send(bytes.Join(fs, nil)) // a burst goes out in one write: pipelined
 		if q.Kind == "close" {
 			closeSent[q.Handle] = true
 		}
 		if noreply {
+			mrec.defer_(i, q, hkind, hlive, len(fs), msnap)
 			break
 		}
 		var rep wire.Pkt
+		var reps []wire.Pkt
 		for n := range fs {
 			qn := q
 			if len(fs) > 1 {
@@ -431,10 +438,12 @@ func ssRunC11(cfg ssCfg, prog []ssStep, end ssEnd, root string) ssResult {
 				break
 			}
 			res.Findings = append(res.Findings, s.trk.observe(qn, rep)...)
+			reps = append(reps, rep)
 		}
 		if dead {
 			break
 		}
+		mrec.record(i, q, hkind, hlive, reps, msnap, false)
 		if stale {
 			if after := sig(); after != before {
 				add(ssFinding{Key: fmt.Sprintf("%s/stale-handle-acted/%s", k, q.Kind), What: fmt.Sprintf("%s naming the never-issued or closed handle %q touched files or handlers", q.Kind, q.Handle), Expected: ssDiffText(before, after, "-"), Actual: ssDiffText(after, before, "+")})
@@ -476,6 +485,9 @@ func ssRunC11(cfg ssCfg, prog []ssStep, end ssEnd, root string) ssResult {
 		}
 	}
 	// how the connection ends
+	if !dead && end.Mode != "noreply" {
+		mrec.samplePre()
+	}
 	if !dead && (end.Mode == "mid" || end.Mode == "breakmid") {
 		nf := wire.Req(wire.Close, 9999, wire.B{}.Str("1"))
 		if last+1 < len(prog) {
@@ -496,10 +508,11 @@ func ssRunC11(cfg ssCfg, prog []ssStep, end ssEnd, root string) ssResult {
 		s.srv.CloseInput()
 	}
 	nlive := len(s.trk.live)
-	s.finish(&res)
+	extra := s.finish(&res)
 	if res.Exit || dead {
 		return res
 	}
+	res.Model = mrec.finish(end, extra)
 	res.Hist = append(res.Hist, fmt.Sprintf("live-at-end/%d", ssBucket(nlive)), fmt.Sprintf("issued/%d", ssBucket(len(s.trk.order))))
 	if k == "rs" && !cfg.InMem {
 		for _, o := range s.fs.objStates() {
